@@ -29,7 +29,7 @@ from operon_ai.state.metabolism import ATP_Store
 ID = "C08"
 LEVEL = "exploration"
 ENGINE = "seq"
-RUNS = {"quick": 60_000, "thorough": 2_500_000}
+RUNS = {"quick": 60_000, "thorough": 2_000_000}
 RULE = ("seeded histories of 2-8 requests (quick; up to 14 thorough) whose outcome is scripted through the two agents' "
         "verdicts {success, intentional block, executor FAILURE verdict, raising agent, UNKNOWN/DEFER mismatch, repeated "
         "prompt (cache hit)}, interleaved with clock moves to last-failure + recovery timeout + {-1 s, -1 ms, 0, +1 ms, "
